@@ -257,7 +257,45 @@ def handle (op opts payload : String) : String :=
   else "bad-request"
 end F
 
+/-! ### Cube: `x<title>;ox:oy:oz;s0:s1:s2;ax:ay:az/bx:by:bz/cx:cy:cz;zn:q:x:y:z,…;<m@e>/<m@e>/…` -/
+namespace C
+open Iodata.Fmt.Cube
+
+def decVec (s : String) : Vec :=
+  match s.splitOn ":" with
+  | [x, y, z] => ⟨decFx x, decFx y, decFx z⟩
+  | _ => ⟨⟨false, 0⟩, ⟨false, 0⟩, ⟨false, 0⟩⟩
+def encVec (v : Vec) : String := ":".intercalate [encFx v.x, encFx v.y, encFx v.z]
+def decAtom (s : String) : Atom :=
+  match s.splitOn ":" with
+  | [zn, q, x, y, z] => ⟨decInt zn, decFx q, decFx x, decFx y, decFx z⟩
+  | _ => ⟨0, ⟨false, 0⟩, ⟨false, 0⟩, ⟨false, 0⟩, ⟨false, 0⟩⟩
+def encAtom (a : Atom) : String := ":".intercalate [toString a.zn, encFx a.q, encFx a.x, encFx a.y, encFx a.z]
+
+def decObj (s : String) : Obj :=
+  match s.splitOn ";" with
+  | [t, o, sh, ax, ats, d] =>
+    ⟨decStr t, decVec o, decList ":" decInt sh, decList "/" decVec ax, decList "," decAtom ats, decList "/" F.decSci d⟩
+  | _ => ⟨[], decVec "", [], [], [], []⟩
+def encObj (o : Obj) : String :=
+  ";".intercalate [encStr o.title, encVec o.origin, encList ":" (fun (i : Int) => toString i) o.shape, encList "/" encVec o.axes,
+    encList "," encAtom o.atoms, encList "/" F.encSci o.data]
+
+def handle (op _opts payload : String) : String :=
+  let L := Gen.Layouts.cubeL
+  if op == "dump" || op == "spec" then okHex (dump L (decObj payload))
+  else if op == "dumploop" then
+    let o := decObj payload
+    "ok " ++ hexOfStr (dataLoop L (o.shape.getD 2 0).toNat 0 o.data)
+  else if op == "load" then
+    match load L (linesOfHex payload) with
+    | .ok o => "ok " ++ encObj o
+    | .error _ => "err LoadError"
+  else "bad-request"
+end C
+
 def handle : List String → Option String
+  | ["fmt", op, "cube", opts, payload] => some (C.handle op opts payload)
   | ["fmt", op, "fchk", opts, payload] => some (F.handle op opts payload)
   | ["fmt", op, "pdb", opts, payload] => some (P.handle op opts payload)
   | ["fmt", op, "xyz", opts, payload] => some (X.handle op opts payload)
